@@ -1,6 +1,8 @@
 CONSTANTS
   MaxCfg = 1
   MaxTouch = 1
+  DynKeys = {"extra"}
+  MaxDyn = 1
   Tier = "quick"
 INIT MCInit
 NEXT MCNext
